@@ -153,6 +153,10 @@ class ProgGen:
         for f in fbs:
             # close the loop on any port that is not the feedback itself
             cands = [p for p in ports if p not in fbs]
+            if self.allow_ite:
+                # a feedback is never bound to a reference-shaped port: what the edge carries while the reference points at a
+                # target without value is not defined by the properties
+                cands = [p for p in cands if p not in nested_results] or [p for p in ports if p not in fbs and p not in nested_results] or cands
             stmts.append(S("", "bind", f, rng.choice(cands)))
         if want_ret:
             cands = [p for p in ports if p not in fbs and p not in nested_results and not (self.allow_ite and p in params)]
